@@ -5,23 +5,34 @@ DRIVER_MODE = "c15"
 LEAN_MODULES = ["AdaptaVerif.Props.C15"]
 LEVEL = "other"
 LEVEL_TEXT = ("Two halves. (A) Logic of object lifetime in libavoid's Router, machine-checked: an executable Lean model of the "
-              "Router's ownership state machine (shapes, junctions, connectors, pins, the pending action list with "
+              "Router's ownership state machine (shapes, junctions, connectors, pins, clusters, checkpoint vertices, the pending action list with "
               "find-before-push / removeObjectFromQueuedActions / processActions, transactions on and off, ~Router) with "
               "theorems over ALL legal operation histories of any length: live sets = created minus freed, nothing freed "
               "twice, no queued action that is dereferenced names a freed object, no connector end names a freed obstacle "
               "or pin, everything released after ~Router, and (strict legality) no use-after-free / re-entrant processing / "
-              "internal assertion inside processActions; plus closed counterexamples proving that documented-legal but not "
+              "internal assertion inside processActions; clusters (ClusterRef) are linked in Router::clusterRefs exactly while "
+              "allocated and none survives ~Router, with a closed witness that the machine mirroring the code before /repo def6b3d "
+              "(stepOld) leaks them; plus closed counterexamples proving that documented-legal but not "
               "strictly legal histories DO hit those defects. (B) Runtime observation: generated legal API histories of all "
               "five libraries are executed in-process under AddressSanitizer + UndefinedBehaviorSanitizer + LeakSanitizer "
               "with the libraries' assertions on; leaks are attributed per case; after every Router operation the router's "
-              "public live sets, endpoint anchors and attachment counts are compared with the Lean model.")
+              "public live sets (m_obstacles, connRefs, clusterRefs), endpoint anchors and attachment counts are compared with the Lean model. "
+              "The histories set every RoutingParameter and RoutingOption (0 / default / other values, also between transactions) and "
+              "call the rest of the documented public API (fixed routes, setRoutingType, splitAtSegment, removeJunctionAndMergeConnectors, "
+              "transformConnectionPinPositions, resized moveShape, queries, SVG/text output), composite calls being expanded into the "
+              "model operations they perform.")
 LEVEL_NOTE = ("A theorem cannot exhibit a C++ use-after-free: half (A) is about the hand-written model, tied to the code only by "
-              "the sampled correspondence of half (B) (m_obstacles / connRefs ids, ConnRef::endpointConnEnds anchors, ConnRef::routingCheckpoints counts, "
+              "the sampled correspondence of half (B) (m_obstacles / connRefs / clusterRefs ids, ConnRef::endpointConnEnds anchors, ConnRef::routingCheckpoints counts, "
               "Obstacle::attachedConnectors counts after every op; pins are not publicly observable and are model-only). Half (B) "
               "is testing under sanitizers, not proof: absence of reports on the sampled histories only. 'Legal' for the "
               "Router is the model's decidable strict predicate (documented preconditions minus the known-finding classes, "
               "each of which has its own kf-* replay step); for libvpsc/libcola/libtopology/libdialect legality is the "
-              "documented ownership rules as encoded in harness/c15_libs.h. Hyperedge rerouting registration and "
+              "documented ownership rules as encoded in harness/c15_libs.h. API calls without lifetime effect are the identity in the "
+              "model (their C++ runs under the sanitizers only); geometry, routes and option-dependent routing code are not modelled. "
+              "The main class stays away from the open round-6 findings (cluster boundaries that are not graph vertices with polyline "
+              "connectors, boundaries referencing a shape that is deleted, segmentPenalty 0 with orthogonal routing, idealNudgingDistance 0, "
+              "deleting a pin while a library-made ConnEnd copy naming it is queued, polyline connectors along referencing boundaries); "
+              "each has its own replay step. Hyperedge rerouting registration and "
               "improveHyperedgeRoutesMovingAddingAndDeletingJunctions are exercised only by kf-* steps (they trip internal "
               "assertions on generated inputs). Termination is observed per run (harness timeout), not proved.")
 TECHNIQUE = "Lean 4 state-machine theorems (ownership logic) + sanitizer-instrumented history replay with model correspondence"
@@ -32,21 +43,29 @@ EXPLANATION = ("(A) Lean: Model/Lifecycle.lean is an executable model of Router 
                "assertion / use-after-free in the model (former K3/K5, repaired in /repo, are now proved legal and fault-free). (B) harness/c15.cpp generates strictly legal histories "
                "(5-40 ops quick, up to 60 thorough; both routing modes; transactions on/off and switched; deleting shapes whose "
                "pins are in use; deleting connectors inside a pending transaction; move+delete in one transaction; deleting "
-               "junctions; destroying the router with queued actions; setRoutingCheckpoints with 0-3 checkpoints, repeatedly on the same connector;  with transactions off also deleteJunction, moving obstacles with "
+               "junctions; destroying the router with queued actions; setRoutingCheckpoints with 0-3 checkpoints, repeatedly on the same connector; "
+               "clusters with rectangular / triangular / L-shaped / pentagonal boundaries containing, overlapping, disjoint from shapes and nested, "
+               "setNewPoly, deleteCluster mid-history, ~Router with clusters alive; all 9 RoutingParameters and 6 of the 7 RoutingOptions at 0 / default / "
+               "other values, changed between transactions; setRoutingType flips, fixed routes, splitAtSegment, removeJunctionAndMergeConnectors, "
+               "transformConnectionPinPositions, resized moveShape with first_move, pins with absolute offsets / inside offset / connection cost, "
+               "ConnEnd(Point, directions), callbacks, queries, outputInstanceToSVG / outputDiagramText; with transactions off also deleteJunction, moving obstacles with "
                "attached connectors, the 3-argument ConnRef constructor and new pins on attached shapes) plus vpsc/cola/topology/dialect lifecycles, runs them "
                "under ASan+UBSan+LSan with assertions on, calls __lsan_do_recoverable_leak_check() after every case, and "
                "driver_c15 replays each Router history in the model, checks Legal for every op and compares the observable "
                "live sets after every op. Each known defect class is replayed by its own harness invocation (--mode kf-*).")
 RULE = ("router-hist: random strictly legal op sequences from the weighted op mix in harness/c15.cpp (geometry on a 5-unit grid, "
-        "ids explicit); a case is non-trivial if it has >= 5 operations and at least one deletion (shape, junction, connector "
-        "or pin). vpsc/cola/topology/dialect-hist: random small lifecycles, non-trivial if >= 3 API steps. kf-*: one "
+        "ids explicit); a case is non-trivial if it has >= 5 operations and at least one deletion (shape, junction, connector, "
+        "pin or cluster). vpsc/cola/topology/dialect-hist: random small lifecycles, non-trivial if >= 3 API steps. kf-*: one "
         "deterministic minimal history per known-finding class.")
 TRUSTED_BASE = ["Lean 4.33 kernel", "axioms: propext, Classical.choice, Quot.sound",
                 "gcc 12 AddressSanitizer / UndefinedBehaviorSanitizer / LeakSanitizer (incl. __lsan_do_recoverable_leak_check)",
                 "harness/c15.cpp + harness/c15_libs.h (legality of the generated histories; their mirror of the model's Legal is "
                 "re-checked per op by the driver)", "lean/Driver/C15.lean (compiled)", "check/check.py CRASH attribution"]
 ASSUMPTIONS = ["valid use = documented preconditions; for the Router additionally the model's strict Legal predicate, i.e. outside "
-               "the known-finding classes K1-K13 (each replayed separately)",
+               "the known-finding classes K1-K13 and the open round-6 findings (each replayed separately)",
+               "ClusterRef polygons: free polygons next to polyline connectors only with clusterCrossingPenalty 0 (makepath.cpp:385 wants every "
+               "boundary point to be a visibility-graph vertex); the designed use (boundary points referencing shape vertices) is "
+               "exercised by the class router-hist-cp",
                "pins, vertices, visibility edges and hyperedge trees are not publicly observable: their release is checked only "
                "by LeakSanitizer"]
 
